@@ -48,3 +48,48 @@ package priority_queue
 //@ func (*Queue[V, P]).Update
 //@   trusted
 //@   modifies pq.pq
+
+// ---------------------------------------------------------------------------------------------------------------
+// The five methods container/heap works through (heap.Interface), VERIFIED (not trusted). container/heap touches
+// the queue only through them, so what they preserve is what heap.Push / heap.Pop / heap.Fix preserve. The invariant
+// that Queue.Update relies on (heap.Fix(&pq.pq, item.index) re-orders the heap AT THE ITEM) is
+//     [index] every queued item is non-nil and records its own position:  pq[i].index == i.
+// Push establishes it for the appended item, Swap keeps it for the two positions it exchanges and touches nothing
+// else, Pop removes the last item (marking it with index -1) and keeps it for the rest. A Push that forgets to set the
+// index (so that Update re-orders at the root instead of at the item, and a satisfied PIT entry stays buried until
+// the entries above it expire) fails [index-set].
+
+//@ func (*wrapper[V, P]).Len
+//@   ensures result == len(*pq)
+
+//@ func (*wrapper[V, P]).Less
+//@   requires 0 <= i && i < len(*pq) && 0 <= j && j < len(*pq) && (*pq)[i] != nil && (*pq)[j] != nil
+//@   ensures result == ((*pq)[i].priority < (*pq)[j].priority)
+
+//@ func (*wrapper[V, P]).Swap
+//@   requires 0 <= i && i < len(*pq) && 0 <= j && j < len(*pq)
+//@   requires forallIn(0, len(*pq), func(k int) bool { return (*pq)[k] != nil && (*pq)[k].index == k })
+//@   requires forallIn(0, len(*pq), func(k int) bool { return forallIn(0, len(*pq), func(m int) bool { return k != m ==> (*pq)[k] != (*pq)[m] }) })
+//@   modifies (*pq)[*], (*pq)[i].index, (*pq)[j].index
+//@   ensures [swapped] (*pq)[i] == old((*pq)[j]) && (*pq)[j] == old((*pq)[i]) && len(*pq) == old(len(*pq))
+//@   ensures [others-kept] forallIn(0, len(*pq), func(k int) bool { return k != i && k != j ==> (*pq)[k] == old((*pq)[k]) })
+//@   ensures [index] forallIn(0, len(*pq), func(k int) bool { return (*pq)[k] != nil && (*pq)[k].index == k })
+
+//@ func (*wrapper[V, P]).Push
+//@   requires typeIs(x, "*Item[V, P]") && x.(*Item[V, P]) != nil
+//@   requires forallIn(0, len(*pq), func(k int) bool { return (*pq)[k] != nil && (*pq)[k].index == k && (*pq)[k] != x.(*Item[V, P]) })
+//@   modifies *pq, (*pq)[*], x.(*Item[V, P]).index
+//@   ensures [appended] len(*pq) == old(len(*pq))+1 && (*pq)[len(*pq)-1] == x.(*Item[V, P])
+//@   ensures [index-set] x.(*Item[V, P]).index == old(len(*pq))
+//@   ensures [others-kept] forallIn(0, old(len(*pq)), func(k int) bool { return (*pq)[k] == old((*pq)[k]) })
+//@   ensures [index] forallIn(0, len(*pq), func(k int) bool { return (*pq)[k] != nil && (*pq)[k].index == k })
+
+//@ func (*wrapper[V, P]).Pop
+//@   requires len(*pq) > 0
+//@   requires forallIn(0, len(*pq), func(k int) bool { return (*pq)[k] != nil && (*pq)[k].index == k })
+//@   requires forallIn(0, len(*pq), func(k int) bool { return forallIn(0, len(*pq), func(m int) bool { return k != m ==> (*pq)[k] != (*pq)[m] }) })
+//@   modifies *pq, (*pq)[*], (*pq)[len(*pq)-1].index
+//@   ensures [last-out] typeIs(result, "*Item[V, P]") && result.(*Item[V, P]) == old((*pq)[len(*pq)-1]) && result.(*Item[V, P]).index == -1
+//@   ensures [shrunk] len(*pq) == old(len(*pq))-1 && sliceArr(*pq) == old(sliceArr(*pq))
+//@   ensures [others-kept] forallIn(0, len(*pq), func(k int) bool { return (*pq)[k] == old((*pq)[k]) })
+//@   ensures [index] forallIn(0, len(*pq), func(k int) bool { return (*pq)[k] != nil && (*pq)[k].index == k })
